@@ -97,6 +97,10 @@ def configs():
         out.append(dict(expl=mode, storage='own', imputer='own', n=2))
     for expl in ('sage-dynamic', 'sage-static', 'pfi'):
         out.append(dict(expl=expl, storage='geometric', imputer='joint', n=1, river=True))
+    for mode in ('batch', 'batch-original'):
+        out.append(dict(expl=mode, storage='own', imputer='own', n=1, reservoir=True, delivery_pair=True))
+    out.append(dict(expl='pfi', storage='geometric', imputer='joint', n=1, delivery_pair=True))
+    out.append(dict(expl='interval', storage='own', imputer='own', n=1, delivery_pair=True))
     return out
 
 
@@ -122,8 +126,9 @@ def storage_image(st):
     return [[sorted((k, hx(v)) for k, v in row.items()) for row in list(xs)], [hx(y) for y in list(ys)]]
 
 
-def run_cell(cfg, seeds, prehist, skind, n_obs):
-    """Returns the list of per-call digests (importance values + storage image)."""
+def _run_cell_once(cfg, seeds, prehist, skind, n_obs, delivery='copy'):
+    """Returns the list of per-call digests (importance values + storage image).
+    delivery: 'copy' passes short-lived copies of the observations, 'kept' the long-lived objects of a pre-built list."""
     import random
     import numpy as np
     import ixai
@@ -179,25 +184,40 @@ def run_cell(cfg, seeds, prehist, skind, n_obs):
         ex = IntervalSage(model, names, loss, n_inner_samples=cfg['n'], interval_length=3, storage=storage)
     else:
         from ixai.storage import BatchStorage
-        storage = BatchStorage(store_targets=True)
+        storage = BatchStorage(store_targets=True) if not cfg.get('reservoir') else \
+            GeometricReservoirStorage(size=3, store_targets=True, constant_probability=0.6)
         ex = BatchSage(model, names, loss, n_inner_samples=cfg['n'], storage=storage)
     digests = []
+    give = (lambda x: dict(x)) if delivery == 'copy' else (lambda x: x)
     if e in ('batch', 'batch-original'):
         data = data[:12]
     for t, (x, y) in enumerate(data):
         if e == 'batch':
-            vals = ex.explain_one(dict(x), y, verbose=False) if t % 4 == 3 else (ex.update_storage(dict(x), y) or {})
+            vals = ex.explain_one(give(x), y, verbose=False) if t % 4 == 3 else (ex.update_storage(give(x), y) or {})
         elif e == 'batch-original':
-            vals = ex.explain_one(dict(x), y, original_sage=True, verbose=False) if t % 4 == 3 else \
-                (ex.update_storage(dict(x), y) or {})
+            vals = ex.explain_one(give(x), y, original_sage=True, verbose=False) if t % 4 == 3 else \
+                (ex.update_storage(give(x), y) or {})
         elif e == 'interval':
-            vals = ex.explain_one(dict(x), y, verbose=False)
+            vals = ex.explain_one(give(x), y, verbose=False)
         else:
-            vals = ex.explain_one(dict(x), y)
+            vals = ex.explain_one(give(x), y)
         st_obj = storage if storage is not None else getattr(ex, '_storage', None)   # library default: private, optional
         img = (sorted((str(k), hx(v)) for k, v in dict(vals).items()), storage_image(st_obj) if st_obj is not None else None)
         digests.append(hashlib.sha1(repr(img).encode()).hexdigest()[:16])
     return digests
+
+
+def run_cell(cfg, seeds, prehist, skind, n_obs):
+    """One cell: the stream delivered as short-lived copies and as long-lived objects must give identical results
+    (results must not depend on object identities / lifetimes)."""
+    a = _run_cell_once(cfg, seeds, prehist, skind, n_obs, 'copy')
+    if not cfg.get('delivery_pair'):
+        return a
+    b = _run_cell_once(cfg, seeds, 'none', skind, n_obs, 'kept')
+    if a != b:
+        first = next(i for i in range(len(a)) if a[i] != b[i])
+        return [f'DELIVERY-MISMATCH from call {first + 1}: the same stream delivered as temporaries vs kept objects']
+    return a
 
 
 # ------------------------------------------------------------------------------------------ entropy monitor
@@ -362,8 +382,31 @@ def spawn(tier, vseed, parts):
     return out
 
 
+def constructor_check(rep):
+    """Constructing library objects with an explicit seed must leave both global generators exactly as they are
+    (a constructor that calls random.seed / np.random.seed silently restarts every other component's draws)."""
+    import random
+    import numpy as np
+    from ixai.storage import TreeStorage, UniformReservoirStorage, GeometricReservoirStorage, IntervalStorage, BatchStorage
+    random.seed(99)
+    np.random.seed(99)
+    for label, make in (('TreeStorage(seed=7)', lambda: TreeStorage(['c1'], ['n1', 'n2'], seed=7)),
+                        ('TreeStorage(seed=0)', lambda: TreeStorage(['c1'], ['n1', 'n2'], seed=0)),
+                        ('GeometricReservoirStorage', lambda: GeometricReservoirStorage(size=3)),
+                        ('IntervalStorage', lambda: IntervalStorage(size=3)), ('BatchStorage', lambda: BatchStorage())):
+        before = (random.getstate(), np.random.get_state()[1].tobytes(), np.random.get_state()[2])
+        make()
+        after = (random.getstate(), np.random.get_state()[1].tobytes(), np.random.get_state()[2])
+        rep.add(evaluations=1)
+        if before != after:
+            rep.violation(f"{PID}/constructor-touches-global-generator/{label.split('(')[0]}",
+                          f"constructing {label} changed the state of the global random generators (it re-seeds or draws "
+                          f"from them): every other component's draws restart / shift", {'constructor': label})
+
+
 def main(rep):
     from ixverif import choice
+    constructor_check(rep)
     cs = cells(rep.tier, rep.seed)
     jobs = choice.n_jobs()
     chunks = [[c for i, c in enumerate(cs) if i % (2 * jobs) == j] for j in range(2 * jobs)]
@@ -391,6 +434,10 @@ def main(rep):
             rep.violation(f"{PID}/entropy/{label}/{what.split('(')[0].strip()}",
                           f"[{label}] hidden entropy source: {what} reached from ixai code at {site} "
                           f"(seeds {p}, pre-history {ph})", {'cell': json.loads(k)})
+        if any(v and v[0].startswith('DELIVERY-MISMATCH') for v in versions):
+            rep.violation(f"{PID}/depends-on-object-identity/{label}", f"[{label}] seeds {p}: "
+                          f"{next(v[0] for v in versions if v[0].startswith('DELIVERY'))}", {'cell': json.loads(k)})
+            continue
         if any(v and v[0].startswith('raised') for v in versions):
             rep.violation(f"{PID}/raised/{label}", f"[{label}] run raised: {versions}", {'cell': json.loads(k)})
             continue
@@ -434,11 +481,18 @@ def main(rep):
 def cfg_label(cfg):
     if cfg['storage'] == 'tree':
         return f"{cfg['expl']}+TreeStorage(seed={cfg['tree_seed']})+TreeImputer(use_storage={cfg['use_storage']},direct={cfg['direct']})"
-    return f"{cfg['expl']}+{cfg['storage']}+{cfg['imputer']}" + ('+river-string-label-model' if cfg.get('river') else '')
+    return f"{cfg['expl']}+{cfg['storage']}+{cfg['imputer']}" + ('+river-string-label-model' if cfg.get('river') else '') + \
+        ('+reservoir' if cfg.get('reservoir') else '') + ('+delivery-pair' if cfg.get('delivery_pair') else '')
 
 
 def replay(data):
     from ixverif.report import Report
+    if 'constructor' in data['replay']:
+        rep = Report(PID, 'quick', 0, LEVEL)
+        constructor_check(rep)
+        for key, (what, _) in rep.violations.items():
+            print(f"VIOLATION property={PID} replay=(reproduced)\n  {what}")
+        return 1 if rep.violations else 0
     cell = data['replay']['cell']
     cfg, p, ph, sk, n = cell
     install_monitor()
